@@ -1,4 +1,5 @@
 import Pike.Lemmas.LZ4
+import Pike.Facts
 /-
 C12 — compression codecs are exact inverses for every input and level (PARTIAL BY NATURE).
 The codecs are libraries; what is pike's own is proved here: level handling, finalisation before
@@ -9,6 +10,9 @@ exercised (not proved) by the `codecs` suite.
 namespace Pike
 namespace C12
 open LZ4
+
+/-- Obligation on the extracted facts: pike's own code uses no `sync.Pool` — what an encoder or decoder returned stays what it was after later calls (the models treat them as immutable values). -/
+theorem facts_no_pooled_buffers : Facts.syncPoolSites = [] := by decide
 
 /-- FULL STATEMENT (levels).  For EVERY integer level the level handed to the gzip library is the
 default (-1) or in 1..9 — a level the library accepts — and a configured level in 1..9 is used as
